@@ -110,8 +110,18 @@ func TestVerifC19SingleCallExhaustive(t *testing.T) {
 		respEtag := c.PickStr("", `"e2"`)
 		retryAfter := c.PickStr("", "17", "Wed, 01 May 2024 12:00:30 GMT", "soon", "-5")
 		transportErr := c.Int(5) == 0
+		// what the cache was warmed with: a well-formed answer, or one with unknown / duplicate fields
+		warmBody := c19Body{"cached", `{"status":{"v":3},"children":[]}`, true, false, 3}
+		if etagState == "hit" || etagState == "expired" {
+			switch c.Int(3) {
+			case 1:
+				warmBody = c19Body{"cached-unknown-field", `{"status":{"v":3},"bogus":1}`, true, true, 3}
+			case 2:
+				warmBody = c19Body{"cached-duplicate-field", `{"status":{"v":1},"status":{"v":3}}`, true, true, 3}
+			}
+		}
 		c.Describe(func() any {
-			return map[string]any{"code": code, "body": body.name, "strict": strict, "etag": etagState, "responseETag": respEtag, "retryAfter": retryAfter, "transportError": transportErr}
+			return map[string]any{"code": code, "body": body.name, "strict": strict, "etag": etagState, "cachedBody": warmBody.name, "responseETag": respEtag, "retryAfter": retryAfter, "transportError": transportErr}
 		})
 		ttl := time.Hour
 		if etagState == "expired" {
@@ -120,7 +130,7 @@ func TestVerifC19SingleCallExhaustive(t *testing.T) {
 		calls := 0
 		var sentINM []string
 		client := &scriptedClient{}
-		cachedBody := `{"status":{"v":3},"children":[]}`
+		cachedBody := warmBody.text
 		client.do = func(req *http.Request) (*http.Response, error) {
 			calls++
 			sentINM = append(sentINM, req.Header.Get(headerIfNoneMatch))
@@ -141,13 +151,17 @@ func TestVerifC19SingleCallExhaustive(t *testing.T) {
 		}
 		ex := newC19Executor(client, etagState != "disabled", ttl, strict)
 		if etagState == "hit" || etagState == "expired" {
-			var warm c19Resp
-			if err := ex.Call(c19Parent(), &warm); err != nil {
-				if strict {
+			var warmResp c19Resp
+			if err := ex.Call(c19Parent(), &warmResp); err != nil {
+				if strict && warmBody.unknown {
+					// rejected as it must be; the body and its ETag are cached all the same
+					c.Class("cache-warmed-with-rejected-body")
+				} else if strict {
 					// strict mode may (wrongly) reject the warm-up; judged by the main oracle on other cases
 					return c.Known(vs.Violf("C19/strict-rejects-wellformed", "strict mode rejected a well-formed response while warming the ETag cache: %v", err))
+				} else {
+					return fmt.Errorf("harness: warm-up call failed: %v", err)
 				}
-				return fmt.Errorf("harness: warm-up call failed: %v", err)
 			}
 			if etagState == "expired" {
 				time.Sleep(3 * time.Millisecond)
@@ -201,7 +215,7 @@ func TestVerifC19SingleCallExhaustive(t *testing.T) {
 		// which body must be decoded
 		eff := body
 		if code != 200 {
-			eff = c19Body{"cached", cachedBody, true, false, 3}
+			eff = warmBody
 		}
 		wantErr := !eff.validJSON || (strict && eff.unknown)
 		if wantErr {
